@@ -107,6 +107,12 @@ def answer (line : String) : String :=
     (match w.toNat?, n.toNat?, c.toNat?, m.toNat? with
      | some W, some n', some c', some m' => runStream line W n' c' m'
      | _, _, _, _ => "bad-op")
+  | ["mstream", w, n, k, m] =>
+    -- one channel, k concurrent senders: the channel serialises them, so the model is one sender
+    -- of k·m messages
+    (match w.toNat?, n.toNat?, k.toNat?, m.toNat? with
+     | some W, some n', some k', some m' => runStream line W n' 1 (k' * m')
+     | _, _, _, _ => "bad-op")
   | _ => runScript line
 
 partial def loop (h : IO.FS.Stream) (out : IO.FS.Stream) : IO Unit := do
